@@ -362,6 +362,8 @@ def w_rules(ctx):
         from . import c03
         request_ids_reserved_atomically(ctx, "C17.W10")
         c03.r9_gone_caller_is_not_a_connection_error(ctx)
+        # ... and a stub's request is on record before it is written (the answer may be read before the write returns)
+        c03.r3_insert_before_send(ctx)
         return w6_runtime_key_encoding(ctx)
     tr = ctx.tracer(follow_callers=False, follow_fields=False)
     traits = collect(F, tr)
